@@ -6138,9 +6138,6 @@ class CodegenCtx:
         elif isinstance(action, (AppendTo, AppendCharTo)):
             assert action.into_storage.holds_buflike()
             output_length_expr = self._generate_buflike_length_expr(action.into_storage)
-            # Check if we need to allocate
-            if ProgramData.do(ProgramFlag.ALLOCATE_STR_SPACE_DYNAMIC_ON_DEMAND) and self._is_dynamic(action.into_storage):  # even a default value allocated in start() may have been freed by a delete
-                result.add(f"if (!state->c.{action.into_storage.name}) state->c.{action.into_storage.name} = malloc({output_length_expr});")
             # We treat the size given in by the user as including a terminating null (if requested, anyways)
             max_length_expr = self._generate_buflike_length_expr(action.into_storage, include_null=True)
             result.add(f"if (state->{action.into_storage.name}_counter == {max_length_expr}) {{")
@@ -6163,6 +6160,10 @@ class CodegenCtx:
             result.add("}")
             result.add("else {")
             with result as body:
+                # Check if we need to allocate (only once there is something to store: a buffer allocated in front of the capacity test
+                # would be left behind uninitialised when a string without room for anything overflows on its first append)
+                if ProgramData.do(ProgramFlag.ALLOCATE_STR_SPACE_DYNAMIC_ON_DEMAND) and self._is_dynamic(action.into_storage):  # even a default value allocated in start() may have been freed by a delete
+                    body.add(f"if (!state->c.{action.into_storage.name}) state->c.{action.into_storage.name} = malloc({output_length_expr});")
                 target_expression = "inval" if isinstance(action, AppendTo) else self._generate_code_for_int_expr(
                     action.append_value, ctx, OutputStorage(OutputStorageType.INT, "$appendctx")
                 )
